@@ -55,6 +55,15 @@ CLAIMS.update({
             NOTE_PY + "; _adapt's soundness invariant, _get_applicable_offers, register_* and the C side validate_trait_adapt are not yet under contract", "6 C17"),
 })
 
+CLAIMS.update({
+    "C08": ("Per-operation delta contracts of the observer maintainers: observer_change_handler detaches the downstream graph from the old value and attaches it to the new one, each at most once, in that order, each iff the value is observable (not Undefined / Uninitialized / None), absorbing only NotifierNotFound of the detach step; the list-items maintainer detaches every removed item and attaches every added item exactly once (multisets, by loop invariant), all detaches first; ctrait_prevent_event filters exactly the non-changes; the event factories pass the container event through faithfully (and do not mutate it); registration / rollback from C09. The whole-history statement ('after any history ... iff currently reachable') follows from these deltas only by an induction over histories that is NOT machine-checked (false to assume for cycles through the mutated cell).",
+            NOTE_PY + "; dict/set item maintainers, the observers' iter_observables/get_notifier/get_maintainer, trait_added handling and the C firing rule beyond setattr_trait/getattr_trait are not yet under contract", "6 C08"),
+    "C12": ("cached_property wrapper: a cached value is returned without calling the getter, a miss calls the getter exactly once, stores and returns its result, a failing getter caches nothing, only the cache entry changes; the observe-state handler drops the cache entry and announces the change exactly once through trait_property_changed(name, old) with old = the dropped value (Undefined without a cache). 'Never stale' then reduces to C08's delivery guarantee for the property's observe expression and inherits its unmechanised composition.",
+            NOTE_PY + "; trait_property_changed (C), observer installation order in __init__/__setstate__/clone_traits are not yet under contract", "6 C12"),
+    "C16": ("Handler level only: ListenerItem.handle_simple unregisters the old value then registers the new one, once each; handle_list unregisters every item that left and registers every item that arrived exactly once (multisets, by loop invariant), all unregistrations first; handle_list_items forwards the event's removed/added. This is the same delta law as the observe maintainers (C08); agreement of the two systems on unshared graphs follows only with the unmechanised induction over histories.",
+            NOTE_PY + "; ListenerParser, register/unregister bookkeeping, _register_* (the '.' vs ':' clause), dict handlers, WeakIDKeyDict and deferred registration are not covered: this is the weakest claim of the set", "6 C16"),
+})
+
 NOT_YET = "not claimed yet: the contracts for this property are still being built (plan in DESIGN.md section 6); no other technique is substituted"
 
 
